@@ -11,9 +11,16 @@ pub fn run(args: &[String]) -> String {
         "C15" => serde_find::roundtrip_search(seed),
         "C16" | "C22" => {
             let r = crate::decoder_find::search(seed);
-            if r.contains("\"found\":true") { r } else { serde_find::roundtrip_search(seed) }
+            if r.contains("\"found\":true") {
+                r
+            } else if pid == "C22" {
+                crate::treehash_find::search(seed)
+            } else {
+                serde_find::roundtrip_search(seed)
+            }
         }
         "C09" => crate::unknown_find::search(seed),
+        "C10" | "C23" => crate::treehash_find::search(seed),
         "C21" => crate::varint_find::search(seed),
         _ => "{\"found\":false,\"note\":\"no finder registered for this property\"}".to_string(),
     }
